@@ -141,7 +141,7 @@ def check(tier: str) -> int:
         "floats: every abstract integer n is float(n), exact below 2^31",
         "failure class recognised from exception type/message is used for drift only",
     ]
-    checks = ["Pipeline.full2.check"] + [f"Pipeline.{f}{4 if tier == 'quick' else 5}.check" for f in ("Feed", "Slice", "Ctx", "Fail")]
+    checks = ["Pipeline.full2.check"] + [f"Pipeline.{f}{4 if tier == 'quick' else 5}.check" for f in ("Feed", "Slice", "Ctx", "Fail", "Key")]
     if tier == "thorough":
         checks.append("Pipeline.full3.check")
     for cfg in checks:
@@ -155,13 +155,13 @@ def check(tier: str) -> int:
     _replay_emitted(run, "MC_Pipeline", "Pipeline.full1.emit", exhaustive=True)
     if tier == "quick":
         _replay_emitted(run, "MC_Pipeline", "Pipeline.full2s.emit", exhaustive=True)
-        for f in ("Feed", "Slice", "Ctx", "Fail"):
+        for f in ("Feed", "Slice", "Ctx", "Fail", "Key"):
             _replay_emitted(run, "MC_Pipeline", f"Pipeline.{f}3.emit", exhaustive=True)
         _replay_emitted(run, "MC_Pipeline", "Pipeline.sim.emit", exhaustive=False,
                         simulate="num=1500", depth=20, seed=seed + 1)
     else:
         _replay_emitted(run, "MC_Pipeline", "Pipeline.full2.emit", exhaustive=True, timeout=3000)
-        for f in ("Feed", "Slice", "Ctx", "Fail"):
+        for f in ("Feed", "Slice", "Ctx", "Fail", "Key"):
             _replay_emitted(run, "MC_Pipeline", f"Pipeline.{f}4.emit", exhaustive=True, timeout=3000)
         _replay_emitted(run, "MC_Pipeline", "Pipeline.sim.emit", exhaustive=False,
                         simulate="num=40000", depth=20, seed=seed + 1, timeout=3000)
